@@ -26,6 +26,11 @@ Emit == /\ (ph' = "hdone") =>
              LET bf == <<249, a, b'>>  in == [buf |-> bf, pos |-> 0] IN
              /\ \A n \in {"f16", "f32", "f64"} : Case("acc", n, in, FloatAcc(n, TRUE, bf, 0))
              /\ Case("acc", "f16", [buf |-> <<250, a, b', 0, 0>>, pos |-> 0], FloatAcc("f16", TRUE, <<250, a, b', 0, 0>>, 0))
+        \* the decision table of the narrowing for the full 2^32 sweep: one row per class (sign, exponent, leading 10 mantissa bits, tail class);
+        \* tail classes 0: tail = 0, 1: below half a unit, 2: exactly half, 3: above half; 65535 stands for "some NaN"
+        /\ (ph' = "ndone" /\ d' \in {0, 1, 4096, 4097}) =>
+             LET r == F32ToF16(<<a, b, c * 8192 + d'>>)  tc == CASE d' = 0 -> 0 [] d' = 1 -> 1 [] d' = 4096 -> 2 [] OTHER -> 3 IN
+             PrintT(<<"TBL", a, b, c, tc, IF r[3] = -1 THEN 65535 ELSE r[1] * 32768 + r[2] * 1024 + r[3]>>)
         /\ (ph' = "ndone") =>
              LET x == <<a, b, c * 8192 + d'>>  bits == F32Bytes(x)  bf == <<250>> \o bits IN
              /\ Case("encf", "f16", [bits |-> bits], EncFloat("f16", bits))
@@ -54,6 +59,8 @@ Bracket == (ph = "ndone" /\ b # 255 /\ R[3] # -1 /\ R[2] # 31) =>
 Monotone == (ph = "ndone" /\ b # 255 /\ d > 0) =>
               LET r1 == F32ToF16(<<a, b, c * 8192 + d - 1>>) IN
               (R[3] # -1 /\ r1[3] # -1) => r1[2] * 1024 + r1[3] <= R[2] * 1024 + R[3]
+\* the narrowing is constant on every tail class (so one row per class decides every single of the class)
+ClassConstant == (ph = "ndone" /\ d \in {4095, 8191}) => F32ToF16(Single) = F32ToF16(<<a, b, c * 8192 + (IF d = 4095 THEN 1 ELSE 4097)>>)
 \* overflow goes to infinity, never to a finite value or NaN
 Overflow == (ph = "ndone" /\ b # 255 /\ b - 127 > 15) => R = <<a, 31, 0>>
 =============================================================================
